@@ -136,21 +136,25 @@ def triggerNoticeOfCompletionCanceled (cond : Nat) (floc : EntityId) : DM Unit :
   modP fun p => { p with canceled := true, fin := { p.fin with cond := cond, floc := some floc } }
 
 /-- `_checksum_verify` (dest.py:1038-1058) -/
+def markComplete : DM Unit :=
+  modP fun p => { p with fin := { p.fin with deliv := dcComplete, cond := ccNoError } }
+
 def checksumVerify : DM Bool := do
   let s ← get
   let p := s.p
-  let mut complete := false
   if p.cksType = 15 || p.metadataOnly then
-    complete := true
+    markComplete
+    pure true
   else
     match Fs.calcChecksum s.fs (Checksum.CksType.ofNat p.cksType) p.fileName p.progress 4096 with
     | .error e => throw (Err.ofFs e)
     | .ok crc =>
-      if crc = p.crc32 then complete := true
-      else let _ ← declareFault ccChecksumFailure
-  if complete then
-    modP fun p => { p with fin := { p.fin with deliv := dcComplete, cond := ccNoError } }
-  return complete
+      if crc = p.crc32 then
+        markComplete
+        pure true
+      else
+        let _ ← declareFault ccChecksumFailure
+        pure false
 
 def prepareEofAckPacket : DM Unit := do
   let p ← getP
@@ -179,10 +183,18 @@ def initVfsHandling (sourceBaseName : String) : DM Unit := do
   if Fs.exists' s.fs name then
     match Fs.truncateFile s.fs name with
     | .error e => throw (Err.ofFs e)     -- only PermissionError is caught by the Python
-    | .ok fs' => modify fun s => { s with fs := fs' }
+    | .ok fs' =>
+      modify fun s => { s with fs := fs' }
+      modP fun p => { p with fin := { p.fin with fstat := fsRetained } }
   else
-    modify fun s => { s with fs := (Fs.createFile s.fs name).2 }
-  modP fun p => { p with fin := { p.fin with fstat := fsRetained } }
+    let r := Fs.createFile s.fs name
+    if r.1 ≠ Fs.CREATE_SUCCESS then
+      -- `raise PermissionError` / `except PermissionError`
+      modP fun p => { p with fin := { p.fin with fstat := fsDiscardedRejection } }
+      let _ ← declareFault ccFilestoreRejection
+    else
+      modify fun s => { s with fs := r.2 }
+      modP fun p => { p with fin := { p.fin with fstat := fsRetained } }
 
 /-- `_handle_metadata_packet` (dest.py:686-727) -/
 def handleMetadataPacket (h : Hdr) (closure : Bool) (cks size : Nat) (sname dname : Option String)
@@ -205,18 +217,20 @@ def handleMetadataPacket (h : Hdr) (closure : Bool) (cks size : Nat) (sname dnam
 /-- `_common_first_packet_handler` (dest.py:672-684) -/
 def commonFirstPacketHandler (env : Env) (h : Hdr) : DM Unit := do
   let s ← get
-  if s.state ≠ .idle then return ()
-  let rc := lookupRemote env.cfg.remotes h.src.val
-  modP fun p => { p with conf := { h with dir := .toSend }, tid := some ⟨h.src, h.seq⟩, remoteCfg := rc }
-  modify fun s => { s with state := .busy }
+  if s.state ≠ .idle then pure ()
+  else
+    let rc := lookupRemote env.cfg.remotes h.src.val
+    modP fun p => { p with conf := { h with dir := .toSend }, tid := some ⟨h.src, h.seq⟩, remoteCfg := rc }
+    modify fun s => { s with state := .busy }
 
 def startTransaction (env : Env) (h : Hdr) (closure : Bool) (cks size : Nat)
     (sname dname : Option String) (msgs : Option (List Msg)) : DM Unit := do
   let s ← get
-  if s.state ≠ .idle then return ()
-  modP fun _ => {}
-  commonFirstPacketHandler env h
-  handleMetadataPacket h closure cks size sname dname msgs
+  if s.state ≠ .idle then pure ()
+  else
+    modP fun _ => {}
+    commonFirstPacketHandler env h
+    handleMetadataPacket h closure cks size sname dname msgs
 
 def commonFirstPacketNotMetadataPduHandler (env : Env) (h : Hdr) : DM Unit := do
   modP fun _ => {}
@@ -266,7 +280,7 @@ def lostSegmentHandling (off len : Nat) : DM Unit := do
   let p ← getP
   if off + len ≤ p.lastStart then
     match Tracker.remove p.trk off (off + len) with
-    | .valueError => throw .valueError
+    | .valueError => pure ()        -- `except ValueError: pass`
     | .ok _ t => modP fun p => { p with trk := t }
 
 /-- `vfs.write_data` including the harness's injected rejections -/
@@ -305,8 +319,22 @@ def handleFdPdu (env : Env) (off : Nat) (data : List UInt8) : DM Unit := do
       | none => false
     if sizeErr then
       let fh ← declareFault ccFileSizeError
-      if fh ≠ fhIgnore then return ()
-    modP fun p => { p with progress := max next p.progress }
+      if fh ≠ fhIgnore then pure ()
+      else modP fun p => { p with progress := max next p.progress }
+    else modP fun p => { p with progress := max next p.progress }
+
+/-- second half of `_handle_no_error_eof`: the checksum verification of unacknowledged mode -/
+def noErrorEofVerify (env : Env) : DM Bool := do
+  if (← transmissionMode) = some .unack then
+    let ok ← checksumVerify
+    if !ok then
+      -- `get_fault_handler(FILE_CHECKSUM_FAILURE) != IGNORE_ERROR` (the verification declared it)
+      if (← get).faults.lookup ccChecksumFailure ≠ some fhIgnore then pure false
+      else
+        startCheckLimitHandling env
+        pure false
+    else pure true
+  else pure true
 
 /-- `_handle_no_error_eof` (dest.py:986-1016) -/
 def handleNoErrorEof (env : Env) : DM Bool := do
@@ -314,17 +342,12 @@ def handleNoErrorEof (env : Env) : DM Bool := do
   let fse := p.fileSizeEof.getD 0
   if p.progress > fse then
     let fh ← declareFault ccFileSizeError
-    if fh ≠ fhIgnore then return false
-  else if p.progress < fse && (← transmissionMode) = some .ack then
-    modP fun p => { p with trk := Tracker.add p.trk (p.progress, fse) }
-  if (← transmissionMode) = some .unack then
-    let ok ← checksumVerify
-    if !ok then
-      let fh ← declareFault ccChecksumFailure
-      if fh ≠ fhIgnore then return false
-      startCheckLimitHandling env
-      return false
-  return true
+    if fh ≠ fhIgnore then pure false
+    else noErrorEofVerify env
+  else
+    if p.progress < fse && (← transmissionMode) = some .ack then
+      modP fun p => { p with trk := Tracker.add p.trk (p.progress, fse) }
+    noErrorEofVerify env
 
 /-- `_handle_eof_pdu` (dest.py:962-984) -/
 def handleEofPdu (env : Env) (cond : Nat) (cks : List UInt8) (size : Nat) : DM Unit := do
@@ -335,14 +358,15 @@ def handleEofPdu (env : Env) (cond : Nat) (cks : List UInt8) (size : Nat) : DM U
     | some tid => emitInd (.eofRecv tid)
   if cond = ccNoError then
     let regular ← handleNoErrorEof env
-    if !regular then return ()
+    if !regular then pure ()
+    else fileTransferCompleteTransition
   else
     match (← getP).remoteCfg with
     | none => throw .attributeError
     | some rc =>
       triggerNoticeOfCompletionCanceled cond rc.entityId
       modP fun p => { p with progress := size, fin := { p.fin with deliv := dcIncomplete } }
-  fileTransferCompleteTransition
+      fileTransferCompleteTransition
 
 def handleFdOrEofPdu (env : Env) (pdu : Pdu) : DM Unit :=
   match pdu with
@@ -358,10 +382,15 @@ def resetNakActivityParameters (env : Env) : DM Unit := do
 def handleWaitingForMissingMetadata (env : Env) (pkt : Option Pdu) : DM Unit := do
   match pkt with
   | none => pure ()
-  | some (.fd _ off data) => handleFdWithoutPreviousMetadata true off data
+  | some (.fd _ off data) =>
+    if (← getP).fileSizeEof.isSome then pure ()
+    else handleFdWithoutPreviousMetadata true off data
   | some (.md h closure cks size sname dname msgs) =>
     handleMetadataPacket h closure cks size sname dname msgs
-    if (← getP).deferredActive then resetNakActivityParameters env
+    if (← getP).deferredActive then
+      resetNakActivityParameters env
+      if (← get).step = .RECEIVING_FILE_DATA then
+        modify fun s => { s with step := .WAITING_FOR_MISSING_DATA }
   | some (.eof _ _ cks size _) =>
     handleEofWithoutPreviousMetadata env cks size
     if (← getP).deferredActive then resetNakActivityParameters env
@@ -373,42 +402,49 @@ def splitReqs (conf : Hdr) (eos maxSegs : Nat) :
     List (Nat × Nat) → List (Nat × Nat) → List Pdu → List (Nat × Nat) × List Pdu
   | [], cur, out => (cur, out)
   | r :: rest, cur, out =>
-    let cur' := cur ++ [r]
-    if cur'.length = maxSegs then splitReqs conf eos maxSegs rest [] (out ++ [mkNak conf 0 eos cur'])
-    else splitReqs conf eos maxSegs rest cur' out
+    if cur.length ≥ maxSegs then splitReqs conf eos maxSegs rest [r] (out ++ [mkNak conf 0 eos cur])
+    else splitReqs conf eos maxSegs rest (cur ++ [r]) out
+
+def addPackets (pdus : List Pdu) : DM Unit :=
+  modify fun s => { s with queue := s.queue ++ pdus, numReady := s.numReady + pdus.length }
+
+/-- the NAK PDUs of one (re-)issue of the deferred procedure -/
+def nakSequence (conf : Hdr) (fse maxSegs : Nat) (metadataMissing : Bool) (trk : Tracker.T) : List Pdu :=
+  let init := if metadataMissing then [(0, 0)] else []
+  let r := splitReqs conf fse maxSegs trk init []
+  r.2 ++ (if r.1.length > 0 then [mkNak conf 0 fse r.1] else [])
 
 /-- `_deferred_lost_segment_handling` (dest.py:894-960) -/
 def deferredLostSegmentHandling (env : Env) : DM Unit := do
   let p ← getP
-  if !p.deferredActive then return ()
-  match p.remoteCfg, p.fileSizeEof with
-  | none, _ => throw .assertionError
-  | _, none => throw .assertionError
-  | some rc, some fse =>
-    if p.trk.length = 0 && !p.metadataMissing then
-      let _ ← checksumVerify
-      modify fun s => { s with step := .TRANSFER_COMPLETION, p := { s.p with deferredActive := false } }
-      return
-    let mut first := false
-    match p.procTimer with
-    | none =>
-      modP fun p => { p with procTimer := some ⟨env.now, rc.nakMs⟩ }
-      first := true
-    | some t =>
-      if t.busy env.now then return ()
-    if !first && p.nakCounter + 1 = rc.nakLim then
-      let _ ← declareFault ccNakLimit
-      return
-    match maxSegReqs rc.maxPkt p.conf with
-    | none => throw .valueError
-    | some maxSegs =>
-      let init := if p.metadataMissing then [(0, 0)] else []
-      let (rest, pdus) := splitReqs p.conf fse maxSegs p.trk init []
-      for pdu in pdus do addPacket pdu
-      if rest.length > 0 then addPacket (mkNak p.conf 0 fse rest)
-      if !first then
-        modP fun p => { p with nakCounter := p.nakCounter + 1,
-                               procTimer := p.procTimer.map (·.reset env.now) }
+  if !p.deferredActive then pure ()
+  else
+    match p.remoteCfg, p.fileSizeEof with
+    | none, _ => throw .assertionError
+    | _, none => throw .assertionError
+    | some rc, some fse =>
+      if p.trk.length = 0 && !p.metadataMissing then
+        let _ ← checksumVerify
+        modify fun s => { s with step := .TRANSFER_COMPLETION, p := { s.p with deferredActive := false } }
+      else
+        match p.procTimer with
+        | none =>
+          -- first issuance: the timer is created, the activity counter is not incremented
+          modP fun p => { p with procTimer := some ⟨env.now, rc.nakMs⟩ }
+          match maxSegReqs rc.maxPkt p.conf with
+          | none => throw .valueError
+          | some maxSegs => addPackets (nakSequence p.conf fse maxSegs p.metadataMissing p.trk)
+        | some t =>
+          if t.busy env.now then pure ()
+          else if p.nakCounter + 1 = rc.nakLim then
+            let _ ← declareFault ccNakLimit
+          else
+            match maxSegReqs rc.maxPkt p.conf with
+            | none => throw .valueError
+            | some maxSegs =>
+              addPackets (nakSequence p.conf fse maxSegs p.metadataMissing p.trk)
+              modP fun p => { p with nakCounter := p.nakCounter + 1,
+                                     procTimer := p.procTimer.map (·.reset env.now) }
 
 /-- `_start_deferred_lost_segment_handling` (dest.py:1018-1027) -/
 def startDeferredLostSegmentHandling (env : Env) : DM Unit := do
@@ -426,7 +462,7 @@ def startDeferredLostSegmentHandling (env : Env) : DM Unit := do
 def fsmAdvancementAfterPacketsWereSent (env : Env) : DM Unit := do
   let s ← get
   if s.queue.length > 0 then throw .unretrievedPdus
-  if s.step = .SENDING_EOF_ACK_PDU then
+  else if s.step = .SENDING_EOF_ACK_PDU then
     if !s.p.canceled && (s.p.trk.length > 0 || s.p.metadataMissing) then
       startDeferredLostSegmentHandling env
     else
@@ -444,13 +480,13 @@ def checkLimitHandling (env : Env) : DM Unit := do
     if t.timedOut env.now then
       if ← checksumVerify then
         fileTransferCompleteTransition
-        return
-      let p ← getP
-      if p.checkCount + 1 ≥ rc.chkLim then
-        let _ ← declareFault ccCheckLimit
       else
-        modP fun p => { p with checkCount := p.checkCount + 1,
-                               checkTimer := p.checkTimer.map (·.reset env.now) }
+        let p ← getP
+        if p.checkCount + 1 ≥ rc.chkLim then
+          let _ ← declareFault ccCheckLimit
+        else
+          modP fun p => { p with checkCount := p.checkCount + 1,
+                                 checkTimer := p.checkTimer.map (·.reset env.now) }
 
 /-- `_notice_of_completion` (dest.py:1084-1102) -/
 def noticeOfCompletion (env : Env) : DM Unit := do
@@ -479,7 +515,7 @@ def handleTransferCompletion (env : Env) : DM Unit := do
 def prepareFinishedPdu : DM Unit := do
   let s ← get
   if s.numReady > 0 then throw .unretrievedPdus
-  addPacket (mkFin s.p.conf s.p.fin)
+  else addPacket (mkFin s.p.conf s.p.fin)
 
 def startPositiveAckProcedure (env : Env) : DM Unit := do
   match (← getP).remoteCfg with
@@ -495,8 +531,16 @@ def handleFinishedPduSent (env : Env) : DM Unit := do
   else
     resetInternal false
 
-/-- `_handle_positive_ack_procedures` (dest.py:793-814).  `recurse` is the nested
-`self.state_machine()` call. -/
+/-- the re-send branch of `_handle_positive_ack_procedures` -/
+def resendFinished (env : Env) : DM Unit := do
+  match (← getP).ackTimer with
+  | none => throw .attributeError          -- `ack_timer.reset()` on a reset parameter block
+  | some t =>
+    modP fun p => { p with ackTimer := some (t.reset env.now), ackCounter := p.ackCounter + 1 }
+    prepareFinishedPdu
+
+/-- `_handle_positive_ack_procedures` (dest.py).  `recurse` is the nested `self.state_machine()`
+call. -/
 def handlePositiveAckProcedures (env : Env) (recurse : DM Unit) : DM Unit := do
   let p ← getP
   match p.ackTimer, p.remoteCfg with
@@ -506,15 +550,10 @@ def handlePositiveAckProcedures (env : Env) (recurse : DM Unit) : DM Unit := do
     if t.timedOut env.now then
       if p.ackCounter + 1 ≥ rc.ackLim then
         let fh ← declareFault ccPositiveAckLimit
-        if (← get).state = .idle then return ()
-        if fh = fhCancel then
-          recurse
-          return
-      match (← getP).ackTimer with
-      | none => throw .attributeError          -- `ack_timer.reset()` on the reset parameter block
-      | some t =>
-        modP fun p => { p with ackTimer := some (t.reset env.now), ackCounter := p.ackCounter + 1 }
-        prepareFinishedPdu
+        if (← get).state = .idle then pure ()
+        else if fh = fhCancel then recurse
+        else resendFinished env
+      else resendFinished env
 
 /-- `_handle_waiting_for_finished_ack` (dest.py:771-791) -/
 def handleWaitingForFinishedAck (env : Env) (pkt : Option Pdu) (recurse : DM Unit) : DM Unit :=
@@ -522,19 +561,26 @@ def handleWaitingForFinishedAck (env : Env) (pkt : Option Pdu) (recurse : DM Uni
   | some (.ack ..) => resetInternal false
   | _ => handlePositiveAckProcedures env recurse
 
-/-- `__non_idle_fsm` (dest.py:526-555) -/
-def nonIdleFsm (env : Env) (pkt : Option Pdu) (recurse : DM Unit) : DM Unit := do
-  fsmAdvancementAfterPacketsWereSent env
-  let st := (← get).step
-  if (st = .RECEIVING_FILE_DATA || st = .RECV_FILE_DATA_WITH_CHECK_LIMIT_HANDLING) then
-    match pkt with
-    | some pdu => handleFdOrEofPdu env pdu
-    | none => pure ()
-  if (← get).step = .WAITING_FOR_METADATA then
-    handleWaitingForMissingMetadata env pkt
-    deferredLostSegmentHandling env
-  if (← get).step = .RECV_FILE_DATA_WITH_CHECK_LIMIT_HANDLING then
-    checkLimitHandling env
+/-! `__non_idle_fsm` (dest.py:526-555) is a sequence of independent `if`s; written as a chain of
+tail functions (`fsmFromX` = the rest of the method from the test of step X on). -/
+
+def fsmFromWaitingForFinishedAck (env : Env) (pkt : Option Pdu) (recurse : DM Unit) : DM Unit := do
+  if (← get).step = .WAITING_FOR_FINISHED_ACK then handleWaitingForFinishedAck env pkt recurse
+
+def fsmFromSendingFinishedPdu (env : Env) (pkt : Option Pdu) (recurse : DM Unit) : DM Unit := do
+  if (← get).step = .SENDING_FINISHED_PDU then
+    if (← get).numReady > 0 then pure ()
+    else
+      prepareFinishedPdu
+      handleFinishedPduSent env
+      fsmFromWaitingForFinishedAck env pkt recurse
+  else fsmFromWaitingForFinishedAck env pkt recurse
+
+def fsmFromTransferCompletion (env : Env) (pkt : Option Pdu) (recurse : DM Unit) : DM Unit := do
+  if (← get).step = .TRANSFER_COMPLETION then handleTransferCompletion env
+  fsmFromSendingFinishedPdu env pkt recurse
+
+def fsmFromWaitingForMissingData (env : Env) (pkt : Option Pdu) (recurse : DM Unit) : DM Unit := do
   if (← get).step = .WAITING_FOR_MISSING_DATA then
     match pkt with
     | some (.fd _ off data) =>
@@ -542,13 +588,30 @@ def nonIdleFsm (env : Env) (pkt : Option Pdu) (recurse : DM Unit) : DM Unit := d
       if (← getP).deferredActive then resetNakActivityParameters env
     | _ => pure ()
     deferredLostSegmentHandling env
-  if (← get).step = .TRANSFER_COMPLETION then
-    handleTransferCompletion env
-  if (← get).step = .SENDING_FINISHED_PDU then
-    prepareFinishedPdu
-    handleFinishedPduSent env
-  if (← get).step = .WAITING_FOR_FINISHED_ACK then
-    handleWaitingForFinishedAck env pkt recurse
+  fsmFromTransferCompletion env pkt recurse
+
+def fsmFromCheckLimit (env : Env) (pkt : Option Pdu) (recurse : DM Unit) : DM Unit := do
+  if (← get).step = .RECV_FILE_DATA_WITH_CHECK_LIMIT_HANDLING then checkLimitHandling env
+  fsmFromWaitingForMissingData env pkt recurse
+
+def fsmFromWaitingForMetadata (env : Env) (pkt : Option Pdu) (recurse : DM Unit) : DM Unit := do
+  if (← get).step = .WAITING_FOR_METADATA then
+    handleWaitingForMissingMetadata env pkt
+    deferredLostSegmentHandling env
+  fsmFromCheckLimit env pkt recurse
+
+def fsmFromReceiving (env : Env) (pkt : Option Pdu) (recurse : DM Unit) : DM Unit := do
+  let st := (← get).step
+  if (st = .RECEIVING_FILE_DATA || st = .RECV_FILE_DATA_WITH_CHECK_LIMIT_HANDLING) then
+    match pkt with
+    | some pdu => handleFdOrEofPdu env pdu
+    | none => pure ()
+  fsmFromWaitingForMetadata env pkt recurse
+
+/-- `__non_idle_fsm` (dest.py:526-555) -/
+def nonIdleFsm (env : Env) (pkt : Option Pdu) (recurse : DM Unit) : DM Unit := do
+  fsmAdvancementAfterPacketsWereSent env
+  fsmFromReceiving env pkt recurse
 
 /-- `_handle_first_packet_not_metadata_pdu` (dest.py:580-590) -/
 def handleFirstPacketNotMetadataPdu (pdu : Pdu) : DM Unit := do
@@ -593,9 +656,9 @@ def stateMachineWith (env : Env) (pkt : Option Pdu) (recurse : DM Unit) : DM Uni
   | none => pure ()
   if (← get).state = .idle then
     idleFsm env pkt
-    if (← get).numReady > 0 then return ()
-  if (← get).state = .busy then
-    nonIdleFsm env pkt recurse
+    if (← get).numReady > 0 then pure ()
+    else if (← get).state = .busy then nonIdleFsm env pkt recurse
+  else nonIdleFsm env pkt recurse
 
 /-- `state_machine(packet)` (dest.py:397-431).  The Python recursion in the positive-ACK procedure
 is unrolled twice; a third nested call (only possible with a zero timer interval) is reported as
@@ -616,16 +679,17 @@ def getNextPacket : DM (Option Pdu) := do
 /-- `cancel_request` (dest.py:464-491) -/
 def cancelRequest (env : Env) (tid : Tid) : DM Bool := do
   let s ← get
-  if s.state = .idle then return false
-  if s.numReady > 0 then throw .unretrievedPdus
-  match s.p.tid with
-  | some t =>
-    if t.src.val = tid.src.val && t.seq.val = tid.seq.val then
-      triggerNoticeOfCompletionCanceled ccCancelRequest env.cfg.entityId
-      modify fun s => { s with step := .TRANSFER_COMPLETION }
-      return true
-    else return false
-  | none => return false
+  if s.state = .idle then pure false
+  else if s.numReady > 0 then throw .unretrievedPdus
+  else
+    match s.p.tid with
+    | some t =>
+      if t.src.val = tid.src.val && t.seq.val = tid.seq.val then
+        triggerNoticeOfCompletionCanceled ccCancelRequest env.cfg.entityId
+        modify fun s => { s with step := .TRANSFER_COMPLETION }
+        pure true
+      else pure false
+    | none => pure false
 
 /-- `reset()` -/
 def reset : DM Unit := resetInternal false
